@@ -3,7 +3,7 @@
    right instance, identifiers are fresh, the production task is first, service-finished
    is issued in the call that delivers the completion, and nothing is left open when the
    order is final.  Proof file. *)
-From PFDL Require Import RefSem RunCase Monitors RefBase RefClosure RefShape RefC01.
+From PFDL Require Import RefSem RunCase Monitors RefBase RefClosure RefShape RefC01 Examples.
 From Coq Require Import Lia Permutation.
 
 (* ===================================================================== *)
@@ -1031,3 +1031,503 @@ Section Life.
         cbn [map snd opn_list]. unfold A in P2. cbn beta in P2. clear - P2. perm.
   Qed.
 End Life.
+
+(* ===================================================================== *)
+(* 5. service-finished is issued in the call that delivers the completion  *)
+(* ===================================================================== *)
+Definition sf_ok (c : apicall) (prev : option notif) (n : notif) : bool :=
+  match n_kind n with
+  | SF => (match c with AFinish id => Nat.eqb id (n_id n) | _ => false end)
+          || (match prev with
+              | Some p => is_kind SS p && Nat.eqb (n_id p) (n_id n)
+              | None => false
+              end)
+  | _ => true
+  end.
+
+Fixpoint sfo (c : apicall) (prev : option notif) (ns : list notif) : bool :=
+  match ns with
+  | [] => true
+  | n :: t => sf_ok c prev n && sfo c (Some n) t
+  end.
+
+Definition last_or (p : option notif) (l : list notif) : option notif :=
+  fold_left (fun _ x => Some x) l p.
+
+Lemma sfo_app : forall c a b p, sfo c p (a ++ b) = sfo c p a && sfo c (last_or p a) b.
+Proof.
+  induction a as [|n a IH]; intros b p; [reflexivity|]. cbn [app sfo last_or fold_left].
+  rewrite IH, andb_assoc. reflexivity.
+Qed.
+
+Definition nofire (e : entry) : Prop :=
+  match e with EFireIn _ | EFireOut _ _ => False | _ => True end.
+
+Lemma sfp_sfo : forall c log p, Forall nofire log -> sf_in_place c [] p log = sfo c p (map fst (ee_notifs log)).
+Proof.
+  induction log as [|e log IH]; intros p H; [reflexivity|]. inversion H as [|? ? He Hr]; subst.
+  rewrite ee_cons. destruct e as [[|l0] n r|o kk nm id fl|v cc|fi|fi fr]; cbn [sf_in_place app map fst];
+    try (apply IH; exact Hr); try contradiction.
+  cbn [sfo]. rewrite (IH _ Hr). f_equal. unfold sf_ok. destruct (n_kind n); try reflexivity.
+  cbn [mem]. rewrite orb_false_r. reflexivity.
+Qed.
+
+Lemma render_nofire : forall ls obs evs, Forall nofire (flat_map (render ls obs) evs).
+Proof.
+  intros ls obs evs. induction evs as [|a evs IH]; [constructor|]. cbn [flat_map].
+  apply Forall_app. split; [|exact IH]. destruct a as [n fl r|v c]; cbn [render].
+  - apply Forall_app. split; apply Forall_forall; intros x Hx; apply in_map_iff in Hx;
+      destruct Hx as (y & <- & _); exact I.
+  - constructor; [exact I|constructor].
+Qed.
+
+Definition SfR (c : apicall) (g g' : G) : Prop :=
+  g_ls g' = g_ls g /\ (lst_all (g_ls g) -> sfo c None (N g) = true -> sfo c None (N g') = true).
+
+Lemma SfR_refl : forall c g, SfR c g g.
+Proof. intros c g. split; auto. Qed.
+
+Lemma SfR_trans : forall c g1 g2 g3, SfR c g1 g2 -> SfR c g2 g3 -> SfR c g1 g3.
+Proof.
+  intros c g1 g2 g3 (A1 & A2) (B1 & B2). split; [congruence|].
+  intros Hl H. apply B2; [rewrite A1; exact Hl|]. apply A2; assumption.
+Qed.
+
+Lemma SfR_ext : forall c g g' ns,
+    g_ls g' = g_ls g -> (lst_all (g_ls g) -> N g' = N g ++ ns) -> (forall p, sfo c p ns = true) -> SfR c g g'.
+Proof.
+  intros c g g' ns H1 H2 H3. split; [exact H1|]. intros Hl H. rewrite (H2 Hl), sfo_app, H, H3. reflexivity.
+Qed.
+
+Lemma SfR_emit : forall c n flag g u g',
+    emit_gen n flag g = Ok (u, g') -> (forall p, sf_ok c p n = true) -> SfR c g g'.
+Proof.
+  intros c n flag g u g' H Hk. destruct (emit_frame _ _ _ _ _ H) as (A1 & _ & _).
+  apply (SfR_ext c g g' [n]); [exact A1|intro Hl; eapply emit_N; eassumption|].
+  intro p. cbn [sfo]. rewrite Hk. reflexivity.
+Qed.
+
+Section SfClosure.
+  Variable orc : oracle.
+  Variable imm : nat -> bool.
+  Variable c : apicall.
+
+  Lemma SfR_same : forall g g', g_ls g' = g_ls g -> N g' = N g -> SfR c g g'.
+  Proof. intros g g' H1 H2. apply (SfR_ext c g g' []); auto. intros _. rewrite app_nil_r. exact H2. Qed.
+
+  Lemma SfR_decide : forall e ctx g b g', decide_m orc e ctx g = Ok (b, g') -> SfR c g g'.
+  Proof.
+    intros e ctx g b g' H. apply SfR_same; [apply (e_ls _ _ _ (decide_m_eff _ _ _ _ _ _ H))|].
+    eapply decide_N; eassumption.
+  Qed.
+
+  Lemma SfR_limit : forall l ctx g n g', read_limit orc l ctx g = Ok (n, g') -> SfR c g g'.
+  Proof.
+    intros l ctx g n g' H. apply SfR_same; [apply (e_ls _ _ _ (read_limit_eff _ _ _ _ _ _ H))|].
+    eapply limit_N; eassumption.
+  Qed.
+
+  Lemma SfR_service : forall n at_ ins ctx ie g st g',
+      (id <- fresh_s ;;
+       await id ;;;
+       emit (mk SS n at_ id (Some ctx) (subst_params ie ins)) ;;;
+       k <- tick_ss ;;
+       if imm k
+       then unawait id ;;; emit (mk SF n at_ id (Some ctx) (subst_params ie ins)) ;;; ret RDone
+       else ret (RAwait id)) g = Ok (st, g') -> SfR c g g'.
+  Proof.
+    intros n at_ ins ctx ie g st g' H. destruct (service_N _ _ _ _ _ _ _ _ _ H) as (A1 & _ & _ & A4).
+    split; [exact A1|]. intros Hl Hs. destruct (A4 Hl) as [[_ HN]|[_ HN]]; rewrite HN, sfo_app, Hs; cbn [andb sfo].
+    - reflexivity.
+    - unfold sf_ok at 1 2. cbn [mk n_kind n_id]. unfold is_kind. cbn [mk n_kind nkind_eqb].
+      rewrite Nat.eqb_refl, orb_true_r. reflexivity.
+  Qed.
+
+  Lemma SfR_tstart : forall t at_ ctx ps g id g1 u g2,
+      fresh_t g = Ok (id, g1) -> emit (mk TS t at_ id ctx ps) g1 = Ok (u, g2) -> SfR c g g2.
+  Proof.
+    intros t at_ ctx ps g id g1 u g2 E1 E2. destruct (tstart_N _ _ _ _ _ _ _ _ _ E1 E2) as (-> & B1 & _ & _ & B4).
+    apply (SfR_ext c g g2 _ B1 B4). intro p. reflexivity.
+  Qed.
+
+  Lemma SfR_tfin : forall t at_ id ctx ps flag g u g',
+      emit_gen (mk TF t at_ id ctx ps) flag g = Ok (u, g') -> SfR c g g'.
+  Proof. intros. eapply SfR_emit; [eassumption|]. intro p. reflexivity. Qed.
+
+  Definition start_sf := start_closed orc imm (SfR c) (SfR_refl c) (SfR_trans c) SfR_decide SfR_limit SfR_service
+                                      (fun t at_ ctx ps => @SfR_tstart t at_ (Some ctx) ps)
+                                      (fun t at_ id ctx ps => @SfR_tfin t at_ id (Some ctx) ps false).
+End SfClosure.
+
+(* the closure principle of RefClosure for the deliver family, for one fixed delivered identifier *)
+Section ClosureId.
+  Variable orc : oracle.
+  Variable imm : nat -> bool.
+  Variable R : G -> G -> Prop.
+  Variable R_refl : forall g, R g g.
+  Variable R_trans : forall a b c, R a b -> R b c -> R a c.
+  Variable R_block : forall f ctx ie ss i g r g', run_block orc imm f ctx ie ss i g = Ok (r, g') -> R g g'.
+  Variable R_loop : forall f ctx ie s k g st g', loop_test orc imm f ctx ie s k g = Ok (st, g') -> R g g'.
+  Variable R_tfin : forall t at_ id ctx ps g u g',
+      emit (mk TF t at_ id (Some ctx) ps) g = Ok (u, g') -> R g g'.
+  Variable d : nat.
+  Variable R_sfin : forall n at_ ctx ps g u g',
+      emit (mk SF n at_ d (Some ctx) ps) g = Ok (u, g') -> R g g'.
+
+  Ltac tr := eapply R_trans; [eassumption|].
+
+  Lemma deliver_closed_id : forall f,
+      (forall ctx ie s st g r g', deliver orc imm f ctx ie s st d g = Ok (r, g') -> R g g') /\
+      (forall ctx ie ss i sti g r g', deliver_block orc imm f ctx ie ss i sti d g = Ok (r, g') -> R g g') /\
+      (forall ctx l sts g r g', deliver_list orc imm f ctx l sts d g = Ok (r, g') -> R g g').
+  Proof.
+    induction f as [|f IH]; [split; [|split]; intros; discriminate|].
+    destruct IH as (IHd & IHb & IHl).
+    split; [|split].
+    - intros ctx ie s st g r g' H. cbn [deliver] in H.
+      destruct s as [n at_ ins|t at_ ins body|bs|e p fl|e b|v lim b|v lim c];
+        destruct st as [|id'|cid i sti|sts|bb i sti|k i sti|sts];
+        try (mstep; apply R_refl).
+      + destruct (Nat.eqb d id'); [|mstep; apply R_refl].
+        mstep as u g1 E1. apply R_sfin in E1. mstep. exact E1.
+      + mstep as r1 g1 E1. apply IHb in E1.
+        destruct r1 as [[[j st']|]|].
+        * mstep. exact E1.
+        * mstep as u g2 E2. apply R_tfin in E2. mstep. tr. exact E2.
+        * mstep. exact E1.
+      + mstep as r1 g1 E1. apply IHl in E1.
+        destruct r1 as [sts'|]; [destruct (all_done sts')|]; mstep; exact E1.
+      + mstep as r1 g1 E1. apply IHb in E1.
+        destruct r1 as [[[j st']|]|]; mstep; exact E1.
+      + mstep as r1 g1 E1. apply IHb in E1.
+        destruct r1 as [[[j st']|]|].
+        * mstep. exact E1.
+        * mstep as st' g2 E2. apply R_loop in E2. mstep. tr. exact E2.
+        * mstep. exact E1.
+      + mstep as r1 g1 E1. apply IHb in E1.
+        destruct r1 as [[[j st']|]|].
+        * mstep. exact E1.
+        * mstep as st' g2 E2. apply R_loop in E2. mstep. tr. exact E2.
+        * mstep. exact E1.
+      + mstep as r1 g1 E1. apply IHl in E1.
+        destruct r1 as [sts'|]; [destruct (all_done sts')|]; mstep; exact E1.
+    - intros ctx ie ss i sti g r g' H. cbn [deliver_block] in H.
+      destruct (nth_error ss i) as [s1|]; [|mstep; apply R_refl].
+      mstep as r1 g1 E1. apply IHd in E1.
+      destruct r1 as [st'|]; [|mstep; exact E1].
+      destruct (is_done st').
+      + mstep as r' g2 E2. apply R_block in E2. mstep. tr. exact E2.
+      + mstep. exact E1.
+    - intros ctx l sts g r g' H. cbn [deliver_list] in H.
+      destruct l as [|[ie b] br]; [mstep; apply R_refl|].
+      destruct sts as [|st sr]; [mstep; apply R_refl|].
+      mstep as r1 g1 E1. apply IHd in E1.
+      destruct r1 as [st'|].
+      + mstep. exact E1.
+      + mstep as r2 g2 E2. apply IHl in E2.
+        destruct r2 as [sr'|]; mstep; (tr; exact E2).
+  Qed.
+End ClosureId.
+
+Section SfDeliver.
+  Variable orc : oracle.
+  Variable imm : nat -> bool.
+  Variable d : nat.
+
+  Lemma SfR_sfin : forall n at_ ctx ps g u g',
+      emit (mk SF n at_ d (Some ctx) ps) g = Ok (u, g') -> SfR (AFinish d) g g'.
+  Proof.
+    intros. eapply SfR_emit; [eassumption|]. intro p. unfold sf_ok. cbn [mk n_kind n_id].
+    rewrite Nat.eqb_refl. reflexivity.
+  Qed.
+
+  Definition deliver_sf :=
+    deliver_closed_id orc imm (SfR (AFinish d)) (SfR_refl _) (SfR_trans _)
+                      (fun f => proj1 (proj2 (start_sf orc imm (AFinish d) f)))
+                      (fun f => proj2 (proj2 (proj2 (start_sf orc imm (AFinish d) f))))
+                      (fun t at_ id ctx ps => @SfR_tfin (AFinish d) t at_ id (Some ctx) ps false)
+                      d SfR_sfin.
+End SfDeliver.
+
+(* ===================================================================== *)
+(* 6. API calls and whole scripts                                          *)
+(* ===================================================================== *)
+Definition rootT : open_inst := inst 0 None production_task root_site.
+Definition rootF (tk : bool) : list open_inst := if tk then [rootT] else [].
+
+(* what the monitor checks for one call *)
+Definition call_ok (c : apicall) (L : life) (r : callrec) (L' : life) : Prop :=
+  sf_in_place c [] None (cr_log r) = true /\
+  life_run L (map fst (ee_notifs (cr_log r))) = Some L' /\
+  (negb (cr_final r) || match lf_tasks L', lf_svcs L' with [], [] => true | _, _ => false end) = true.
+
+Section Api.
+  Variable orc : oracle.
+  Variable imm : nat -> bool.
+  Variable body : list xstmt.
+
+  Definition Inv (s : sched) (L : life) : Prop :=
+    let g := sc_g s in
+    lst_all (g_ls g) /\
+    match sc_root s with
+    | None => L = life0 /\ g_tid g = 0
+    | Some RDone => lf_tasks L = [] /\ lf_svcs L = []
+    | Some (RCall cid i st) =>
+      cid = 0 /\ W L (g_tid g) (g_sid g) /\
+      forall tk, Permutation (sel tk L) (opn_opt tk 0 body (Some (i, st)) ++ rootF tk)
+    | Some _ => False
+    end.
+
+  Lemma quiet_step : forall s L b c ls obs,
+      Inv s L -> lst_all ls ->
+      let s' := {| sc_g := clear_log (sc_g s) <| g_ls := ls |> <| g_obs := obs |>; sc_root := sc_root s |} in
+      call_ok c L (observe b s') L /\ Inv s' L.
+  Proof.
+    intros s L b c ls obs (Hl & Hr) Hls s'. split.
+    - split; [reflexivity|]. split; [reflexivity|].
+      unfold observe. cbn [cr_final sc_root s'].
+      destruct (sc_root s) as [[|id|cid i st|sts|bb i st|k i st|sts]|]; try reflexivity.
+      destruct Hr as [-> ->]. reflexivity.
+    - split; [exact Hls|]. exact Hr.
+  Qed.
+
+  Lemma quiet_same : forall s L b c,
+      Inv s L ->
+      let s' := {| sc_g := clear_log (sc_g s); sc_root := sc_root s |} in
+      call_ok c L (observe b s') L /\ Inv s' L.
+  Proof.
+    intros s L b c HI. exact (quiet_step _ _ b c (g_ls (sc_g s)) (g_obs (sc_g s)) HI (proj1 HI)).
+  Qed.
+
+  Lemma perm_nil_eq : forall (l : list open_inst), Permutation l [] -> l = [].
+  Proof. intros l H. apply Permutation_nil. apply Permutation_sym. exact H. Qed.
+
+  (* the production task is reported finished: everything is closed *)
+  Lemma finish_root_step : forall c L0 L g u g',
+      finish_root g = Ok (u, g') -> lst_all (g_ls g) ->
+      Acc L0 g L -> W L (g_tid g) (g_sid g) -> (forall tk, Permutation (sel tk L) (rootF tk)) ->
+      g_ls g' = g_ls g /\ SfR c g g' /\
+      exists L', Acc L0 g' L' /\ lf_tasks L' = [] /\ lf_svcs L' = [].
+  Proof.
+    intros c L0 L g u g' H Hl HA HW HP. unfold finish_root in H.
+    mstep as u1 g1 E1. unfold set_running in H. inv H.
+    destruct (emit_frame _ _ _ _ _ E1) as (C1 & C2 & C3). pose proof (emit_N _ _ _ _ _ E1 Hl) as C4.
+    split; [exact C1|]. split.
+    - eapply SfR_trans; [eapply SfR_tfin; exact E1|]. apply SfR_same; reflexivity.
+    - destruct (life_TF L _ _ production_task root_site 0 None [] (fun _ => []) HW) as (L1 & S1 & W1 & P1).
+      + intro tk. rewrite app_nil_r. apply HP.
+      + intros tk o [].
+      + exists L1. split; [|split].
+        * eapply Acc_app; [exact HA| |].
+          -- change (N (g1 <| g_running := false |>)) with (N g1). exact C4.
+          -- cbn [life_run]. rewrite S1. reflexivity.
+        * apply perm_nil_eq. apply (P1 true).
+        * apply perm_nil_eq. apply (P1 false).
+  Qed.
+
+  Lemma shape_nofire : forall f s c b s',
+      api_call orc imm f body s c = Ok (b, s') -> Forall nofire (cr_log (observe b s')).
+  Proof.
+    intros f s c b s' H. destruct (api_shape _ _ _ _ _ _ _ _ H) as (((evs & -> & _) & _) & _).
+    apply render_nofire.
+  Qed.
+
+  (* the accepted start *)
+  Lemma start_step : forall f s st g',
+      Inv s life0 -> sc_root s = None -> g_tid (sc_g s) = 0 ->
+      (set_running true ;;;
+       id <- fresh_t ;;
+       emit (mk TS production_task root_site id None []) ;;;
+       r <- run_block orc imm f id [] body 0 ;;
+       match r with
+       | None => finish_root ;;; ret RDone
+       | Some (i, st) => ret (RCall id i st)
+       end) (clear_log (sc_g s)) = Ok (st, g') ->
+      let s' := {| sc_g := g'; sc_root := Some st |} in
+      sfo AStart None (N g') = true /\
+      exists L', life_run life0 (N g') = Some L' /\
+                 (negb (root_done (Some st)) || match lf_tasks L', lf_svcs L' with [], [] => true | _, _ => false end) = true /\
+                 Inv s' L'.
+  Proof.
+    intros f s st g' (Hl & _) Hroot Htid H s'.
+    set (g0 := clear_log (sc_g s)) in *.
+    mstep as u1 g1 E1. unfold set_running in E1. inv E1.
+    set (g1 := g0 <| g_running := true |>) in *.
+    assert (Hl1 : lst_all (g_ls g1)) by exact Hl.
+    mstep as id g2 E2. mstep as u3 g3 E3.
+    destruct (tstart_N _ _ _ _ _ _ _ _ _ E2 E3) as (-> & B1 & B2 & B3 & B4). specialize (B4 Hl1).
+    pose proof (SfR_tstart AStart _ _ _ _ _ _ _ _ _ E2 E3) as Sf3.
+    change (g_tid g1) with (g_tid (sc_g s)) in *. rewrite Htid in *.
+    change (N g1) with (@nil notif) in B4. cbn [app] in B4.
+    set (L1 := {| lf_tasks := [rootT]; lf_svcs := []; lf_used_t := [0]; lf_used_s := []; lf_seen_any := true |}).
+    assert (A3 : Acc life0 g3 L1) by (unfold Acc; rewrite B4; reflexivity).
+    assert (W3 : W L1 (g_tid g3) (g_sid g3)).
+    { rewrite B2. constructor; cbn.
+      - reflexivity.
+      - constructor; [lia|constructor].
+      - constructor.
+      - intros tk o c0 Hi Hc. destruct tk; cbn in Hi; [|contradiction]. destruct Hi as [<-|[]]. discriminate.
+      - constructor; [cbn; lia|constructor].
+      - constructor; [intros []|constructor]. }
+    assert (Hl3 : lst_all (g_ls g3)) by (rewrite B1; exact Hl1).
+    assert (Hc3 : copen 0 (lf_tasks L1)) by (exists rootT; split; [left; reflexivity|reflexivity]).
+    mstep as r g4 E4.
+    pose proof (proj1 (proj2 (start_sf orc imm AStart f)) _ _ _ _ _ _ _ E4) as Sf4.
+    pose proof (Eff_Fr _ _ _ (proj1 (proj2 (start_eff orc imm f)) _ _ _ _ _ _ _ E4)) as (F1 & F2 & F3).
+    destruct (proj1 (proj2 (start_life orc imm f)) _ _ _ _ _ _ _ _ _ E4 Hl3 A3 W3 Hc3) as (L4 & A4 & W4 & P4).
+    assert (Sf04 : sfo AStart None (N g4) = true).
+    { apply (proj2 Sf4); [exact Hl3|]. apply (proj2 Sf3); [exact Hl1|reflexivity]. }
+    destruct r as [[i sti]|].
+    - mstep. split; [exact Sf04|]. exists L4. split; [exact A4|]. split; [reflexivity|].
+      split; [cbn [sc_g s']; rewrite F1; exact Hl3|]. cbn [sc_root s'].
+      split; [reflexivity|]. split; [exact W4|]. exact P4.
+    - mstep as u5 g5 E5. mstep.
+      destruct (finish_root_step AStart life0 L4 _ _ _ E5 ltac:(rewrite F1; exact Hl3) A4 W4 P4)
+        as (G1 & Sf5 & L5 & A5 & T5 & S5).
+      split; [apply (proj2 Sf5); [rewrite F1; exact Hl3|exact Sf04]|].
+      exists L5. split; [exact A5|]. split; [rewrite T5, S5; reflexivity|].
+      split; [cbn [sc_g s']; rewrite G1, F1; exact Hl3|]. cbn [sc_root s']. split; assumption.
+  Qed.
+
+  (* an accepted completion *)
+  Lemma finish_step : forall f s L id i sti st g',
+      Inv s L -> sc_root s = Some (RCall 0 i sti) ->
+      (unawait id ;;;
+       r <- deliver_block orc imm f 0 [] body i sti id ;;
+       match r with
+       | None => lift Unsupported
+       | Some None => finish_root ;;; ret RDone
+       | Some (Some (j, st')) => ret (RCall 0 j st')
+       end) (clear_log (sc_g s)) = Ok (st, g') ->
+      let s' := {| sc_g := g'; sc_root := Some st |} in
+      sfo (AFinish id) None (N g') = true /\
+      exists L', life_run L (N g') = Some L' /\
+                 (negb (root_done (Some st)) || match lf_tasks L', lf_svcs L' with [], [] => true | _, _ => false end) = true /\
+                 Inv s' L'.
+  Proof.
+    intros f s L id i sti st g' (Hl & Hr) Hroot H s'. rewrite Hroot in Hr. destruct Hr as (_ & HW & HP).
+    set (g0 := clear_log (sc_g s)) in *.
+    mstep as u1 g1 E1. unfold unawait in E1.
+    match type of E1 with match ?X with _ => _ end = _ => destruct X as [aw1|] end; [|discriminate].
+    unfold set_awaited in E1. inv E1.
+    set (g1 := g0 <| g_awaited := aw1 |>) in *.
+    assert (Hl1 : lst_all (g_ls g1)) by exact Hl.
+    assert (A1 : Acc L g1 L) by reflexivity.
+    assert (W1 : W L (g_tid g1) (g_sid g1)) by exact HW.
+    mstep as r g2 E2.
+    pose proof (proj1 (proj2 (deliver_sf orc imm id f)) _ _ _ _ _ _ _ _ E2) as Sf2.
+    pose proof (dres_ls _ _ _ _ _ _ (proj1 (proj2 (deliver_eff orc imm f)) _ _ _ _ _ _ _ _ _ E2)) as Ls2.
+    assert (Hsep : sep rootF (map oi_id (opn_opt true 0 body (Some (i, sti))))).
+    { intros tk o t Hi _. destruct tk; [|contradiction]. destruct Hi as [<-|[]]. discriminate. }
+    assert (HF : copen 0 (rootF true)) by (exists rootT; split; [left; reflexivity|reflexivity]).
+    pose proof (proj1 (proj2 (deliver_life orc imm f)) _ _ _ _ _ _ _ _ _ _ _ _ E2 Hl1 A1 W1 HP HF Hsep) as R2.
+    assert (Sf02 : sfo (AFinish id) None (N g2) = true) by (apply (proj2 Sf2); [exact Hl1|reflexivity]).
+    destruct r as [[[j st']|]|]; cbn [dpost] in R2; [| |discriminate].
+    - mstep. destruct R2 as (L2 & A2 & W2 & P2).
+      split; [exact Sf02|]. exists L2. split; [exact A2|]. split; [reflexivity|].
+      split; [cbn [sc_g s']; rewrite Ls2; exact Hl1|]. cbn [sc_root s'].
+      split; [reflexivity|]. split; [exact W2|]. exact P2.
+    - destruct R2 as (L2 & A2 & W2 & P2).
+      mstep as u5 g5 E5. mstep.
+      destruct (finish_root_step (AFinish id) L L2 _ _ _ E5 ltac:(rewrite Ls2; exact Hl1) A2 W2 P2)
+        as (G1 & Sf5 & L5 & A5 & T5 & S5).
+      split; [apply (proj2 Sf5); [rewrite Ls2; exact Hl1|exact Sf02]|].
+      exists L5. split; [exact A5|]. split; [rewrite T5, S5; reflexivity|].
+      split; [cbn [sc_g s']; rewrite G1, Ls2; exact Hl1|]. cbn [sc_root s']. split; assumption.
+  Qed.
+
+  Lemma api_step : forall f s L c b s',
+      Inv s L -> api_call orc imm f body s c = Ok (b, s') ->
+      exists L', call_ok c L (observe b s') L' /\ Inv s' L'.
+  Proof.
+    intros f s L c b s' HI H. pose proof (shape_nofire _ _ _ _ _ H) as NF.
+    destruct c as [|id| |k l|o|o]; cbn [api_call] in H.
+    - (* start *)
+      destruct (sc_root s) as [r0|] eqn:Hroot.
+      + inv H. destruct (quiet_same _ _ true AStart HI) as [Q1 Q2]. rewrite Hroot in *.
+        exists L. split; [exact Q1|exact Q2].
+      + match type of H with match ?X with _ => _ end = _ => destruct X as [[st g']| | |] eqn:E end;
+          try discriminate. inv H.
+        pose proof HI as (_ & Hr). rewrite Hroot in Hr. destruct Hr as [-> Htid].
+        destruct (start_step f _ _ _ HI Hroot Htid E) as (S1 & L' & S2 & S3 & S4).
+        exists L'. split; [|exact S4]. split; [|split].
+        * rewrite (sfp_sfo _ _ _ NF). exact S1.
+        * exact S2.
+        * exact S3.
+    - (* completion *)
+      change (g_awaited (clear_log (sc_g s))) with (g_awaited (sc_g s)) in H.
+      destruct (mem id (g_awaited (sc_g s))).
+      + destruct (sc_root s) as [[|id'|cid i sti|sts|bb i sti|k i sti|sts]|] eqn:Hroot; try discriminate.
+        match type of H with match ?X with _ => _ end = _ => destruct X as [[st g']| | |] eqn:E end;
+          try discriminate. inv H.
+        pose proof HI as (_ & Hr). rewrite Hroot in Hr. destruct Hr as (-> & _).
+        destruct (finish_step f _ _ id _ _ _ _ HI Hroot E) as (S1 & L' & S2 & S3 & S4).
+        exists L'. split; [|exact S4]. split; [|split].
+        * rewrite (sfp_sfo _ _ _ NF). exact S1.
+        * exact S2.
+        * exact S3.
+      + inv H. destruct (quiet_same _ _ false (AFinish id) HI) as [Q1 Q2].
+        exists L. split; [exact Q1|exact Q2].
+    - inv H. destruct (quiet_same _ _ false AJunk HI) as [Q1 Q2].
+      exists L. split; [exact Q1|exact Q2].
+    - (* register *)
+      change (g_ls (clear_log (sc_g s))) with (g_ls (sc_g s)) in H.
+      destruct (existsb (fun p => nkind_eqb (fst p) k && Nat.eqb (snd p) l) (g_ls (sc_g s))) eqn:Ex.
+      + inv H. destruct (quiet_same _ _ false (ARegister k l) HI) as [Q1 Q2].
+        exists L. split; [exact Q1|exact Q2].
+      + inv H.
+        destruct (quiet_step _ _ true (ARegister k l) (g_ls (sc_g s) ++ [(k, l)]) (g_obs (sc_g s)) HI
+                             (register_keeps _ _ _ (proj1 HI) Ex)) as [Q1 Q2].
+        exists L. split; [exact Q1|exact Q2].
+    - inv H.
+      destruct (quiet_step _ _ true (AAttach o) (g_ls (sc_g s)) (g_obs (sc_g s) ++ [o]) HI (proj1 HI)) as [Q1 Q2].
+      exists L. split; [exact Q1|exact Q2].
+    - change (g_obs (clear_log (sc_g s))) with (g_obs (sc_g s)) in H.
+      destruct (remove_first (Nat.eqb o) (g_obs (sc_g s))) as [l|]; [|discriminate]. inv H.
+      destruct (quiet_step _ _ true (ADetach o) (g_ls (sc_g s)) l HI (proj1 HI)) as [Q1 Q2].
+      exists L. split; [exact Q1|exact Q2].
+  Qed.
+
+  Theorem C07_run : forall f cs s L tr,
+      Inv s L -> run_script orc imm f body s cs = Ok tr -> life_calls L cs tr = true.
+  Proof.
+    intros f cs. induction cs as [|c cs IH]; intros s L tr HI H; cbn [run_script] in H.
+    - inv H. reflexivity.
+    - destruct (api_call orc imm f body s c) as [[b s']| | |] eqn:E; try discriminate.
+      cbn [rbind] in H.
+      destruct (run_script orc imm f body s' cs) as [t| | |] eqn:E2; try discriminate.
+      cbn [rbind] in H. inv H.
+      destruct (api_step _ _ _ _ _ _ HI E) as (L' & (S1 & S2 & S3) & S4).
+      cbn [life_calls]. rewrite S1, S2, S3. cbn [andb]. eapply IH; eassumption.
+  Qed.
+End Api.
+
+(* Every run of the reference semantics, for every program body, oracle, choice of
+   immediate completions, amount of fuel and every script of API calls: if the model runs
+   to the end of the script the lifecycle monitor accepts the trace. *)
+Theorem C07_ref : forall orc imm body f cs tr,
+    run_script orc imm f body sched0 cs = Ok tr -> holds_C07 cs tr = true.
+Proof.
+  intros orc imm body f cs tr H. unfold holds_C07.
+  eapply C07_run; [|exact H].
+  split; [apply lst_all_default|]. cbn. split; reflexivity.
+Qed.
+
+Theorem C07_ref_programs : forall (c : runcase) (tr : list callrec),
+    run_ref c = Ok tr -> holds_C07 (rc_script c) tr = true.
+Proof.
+  intros c tr H. unfold run_ref in H.
+  destruct (existsb _ (rc_react c)); [discriminate|].
+  destruct (unfold_program (p_tasks (rc_prog c)) 200) as [body| | |]; try discriminate.
+  cbn [rbind] in H. eapply C07_ref; exact H.
+Qed.
+
+(* the hypothesis is inhabited by a run through all statement kinds that reaches the end of
+   the order (16 API calls, one service completed from inside its own notification) *)
+Theorem C07_ref_nonvacuous :
+  exists tr, run_ref ex_case = Ok tr /\ existsb (fun r => cr_final r) tr = true
+             /\ holds_C07 (rc_script ex_case) tr = true.
+Proof.
+  destruct ex_runs as (tr & H & _ & Hf). exists tr. split; [exact H|]. split; [exact Hf|].
+  exact (C07_ref_programs _ _ H).
+Qed.
